@@ -400,6 +400,8 @@ def make_namespace(sched):
         instances = []
 
         def __init__(self, max_workers=None, *a, **kw):
+            if max_workers is not None and max_workers <= 0:
+                raise ValueError('max_workers must be greater than 0')  # as the real executor
             self.max_workers = max_workers or 4
             self.work = []
             self.workers = []
